@@ -79,7 +79,8 @@ class Respeller:
 
     def comment(self):
         k = self.r.random()
-        text = self.r.choice(['c', 'nop', 'x = "1"', "it's", 'a ; b // c', '/* inner', ' r16, 0x10 ', '.db 1', ''])
+        text = self.r.choice(['c', 'nop', 'x = "1"', "it's", 'a ; b // c', '/* inner', ' r16, 0x10 ', '.db 1', '',
+                              'see @2', 'mail@3rd.party', 'was @0, @9 unused', '@1'])
         if k < .4: return '; ' + text
         if k < .7: return '//' + text
         self.stats['c_comment'] += 1
